@@ -4,8 +4,22 @@
    peers, here they are specialised to honest ones and a progress measure is added)
 -/
 import GoHeader.Props.C05
+import GoHeader.P2P.Score
 namespace GoHeader.C18
 open GoHeader GoHeader.Sess GoHeader.C05
+
+/-- the scores that order the session's peer queue stay FINITE numbers under every sequence of booked outcomes
+    (successes of any duration, sub-millisecond ones included, and NOT_FOUND / empty answers) - so the queue's
+    comparison stays a total order and no peer can become invisible to it (`P2P.Score`, classes of float32 values) -/
+theorem c18_score_stays_finite (evs : List Score.Ev) : Score.run true .fin evs = .fin :=
+  Score.run_fixed_fin evs
+
+/-- the code before the F33 repair: one sub-millisecond success and one NOT_FOUND make the score NaN, and NaN stays -/
+theorem c18_score_nan_before_repair (evs : List Score.Ev) :
+    Score.run false .fin ([.ok 0, .fail] ++ evs) = .nan := by
+  have h : Score.run false .fin ([.ok 0, .fail] ++ evs) = Score.run false (Score.run false .fin [.ok 0, .fail]) evs := by
+    simp [Score.run, List.foldl_append]
+  rw [h, Score.old_reaches_nan, Score.nan_absorbing]
 
 /-- `prepareRequests` covers the range exactly, in order, with non-empty chunks of at most `per` -/
 theorem c18_split (origin amount per : Nat) (hp : 0 < per) :
